@@ -52,8 +52,55 @@ fn two_units(toks: &[&str]) -> R<(Unit, Unit)> {
     }
 }
 
+/// `q unw <op> <operands…>`: the operation `q <op> <operands…>` executed inside a destructor that runs while the thread is UNWINDING
+/// from an unrelated panic. Whether an operation panics depends on its operands only, not on where it runs: same tokens, same panic.
+fn unwinding(toks: &[&str], out: &mut Vec<String>) -> R<()> {
+    use std::cell::RefCell;
+    use std::panic::{catch_unwind, resume_unwind, AssertUnwindSafe};
+    use std::rc::Rc;
+    type Outcome = std::thread::Result<R<Vec<String>>>;
+    struct InDrop<'a> {
+        toks: Vec<&'a str>,
+        outcome: Rc<RefCell<Option<Outcome>>>,
+    }
+    impl Drop for InDrop<'_> {
+        fn drop(&mut self) {
+            let toks = &self.toks;
+            let r = catch_unwind(AssertUnwindSafe(|| {
+                let mut o = Vec::new();
+                run(toks, &mut o).map(|_| o)
+            }));
+            *self.outcome.borrow_mut() = Some(r);
+        }
+    }
+    if toks.len() < 3 || toks[2] == "unw" {
+        return Err(Bad);
+    }
+    let mut inner = vec!["q"];
+    inner.extend_from_slice(&toks[2..]);
+    let outcome: Rc<RefCell<Option<Outcome>>> = Rc::new(RefCell::new(None));
+    let o2 = outcome.clone();
+    let _ = catch_unwind(AssertUnwindSafe(move || {
+        let _guard = InDrop { toks: inner, outcome: o2 };
+        panic!("unrelated panic: the guard's destructor runs during unwinding");
+    }));
+    let taken = outcome.borrow_mut().take();
+    match taken {
+        Some(Ok(Ok(o))) => {
+            out.extend(o);
+            Ok(())
+        }
+        Some(Ok(Err(e))) => Err(e),
+        Some(Err(payload)) => resume_unwind(payload),
+        None => Err(Bad),
+    }
+}
+
 pub fn run(toks: &[&str], out: &mut Vec<String>) -> R<()> {
     let op = toks.get(1).copied().ok_or(NoImpl)?;
+    if op == "unw" {
+        return unwinding(toks, out);
+    }
     match op {
         "add" | "sub" | "mul" | "div" | "addas" | "subas" | "mulas" | "divas" => {
             want(toks, 4)?;
